@@ -80,7 +80,7 @@ CLAIMED = {
     'C09': ('Coq proof (dedup total, no repeated rendering among siblings at any depth, idempotent, truth-table preserving for '
             'valuations that respect renderings; refutation witness for the rendering-collision finding; relation refused with '
             'TypeError) + reference-implementation oracle and correspondence on trees with duplicates and on combine_expressions',
-            'Theorems for every well-formed expression tree of the model; operand order: the renderings kept at a node are the renderings of its deduplicated operands in first-occurrence order (uniq_order, dedup_node_order); also checked '
+            'Theorems for every well-formed expression tree of the model; operand order: the renderings kept at a node are the renderings of its deduplicated operands in first-occurrence order (uniq_order, dedup_node_order), every rendering among the operands survives and none twice, combine returns a sole input as it is and keeps duplicates when asked (Proofs/DedupKeeps.v); also checked '
             'by the reference deduplication in the oracle and by the structural correspondence.',
             'Known finding D10 (different operands with equal renderings) is listed in known_findings.txt.', 'DESIGN.md section 4 C09'),
     'C10': ('Coq proof (listings are projections of the literals: all occurrences in order, each once under uniqueness, WITH '
